@@ -104,7 +104,12 @@ def run(tier):
         r = byc[b]
         what = "panic" if r["res"] == "panic" else "error_without_span" if (r["res"] == "error" and not r["span_ok"]) \
             else "stack_not_empty" if r["stack"] != 0 else "not_reusable"
-        verdict.disagree({"what": what, "engine": "ncall", "target": r.get("target")}, {"call": r})
+        cls = {"what": what, "engine": "ncall", "target": r.get("target")}
+        if what == "panic":
+            # which assertion: the text of the panic message (without its location)
+            cls["panic"] = (r.get("msg") or "").split("\n", 1)[-1][:60]
+            cls["operands"] = "sequence x int" if r.get("target") == "op:*" and not any(x in r.get("src", "") for x in ("c_s", "c_es", "c_uni", "c_fmt")) else "other"
+        verdict.disagree(cls, {"call": r})
     rc = verdict.finish()
     targets = len({c.get("target") for c in calls})
     C.write_evidence(PROP, tier, "model_checking", {
